@@ -128,10 +128,14 @@ func (e *c12Env) battery() []string {
 	ctx := &hook.Ctx{Ch: sim.NewReplay(0, nil).Stream("none")}
 	hook.Cur = ctx
 	var log []string
+	// a plain evaluation must never enter the debugger (stale single-step mode would)
+	e.dbg.Stops = nil
+	e.dbg.script, e.dbg.pos = nil, 0
 	if esc := e.call(entryEval, "Battery()"); esc != nil {
 		log = append(log, "BATTERY-ESCAPED "+fmtPanic(esc))
 	}
 	log = append(log, ctx.Log...)
+	log = append(log, fmt.Sprintf("debugger-stops-during-plain-evaluation %d", len(e.dbg.Stops)))
 	// a debug-stepped call: the stop sequence depends on the call-depth bookkeeping
 	e.dbg.Stops = nil
 	e.dbg.script, e.dbg.pos = []string{"step", "step", "step", "next", "step", "finish", "step", "step", "continue"}, 0
